@@ -5,3 +5,6 @@ chk("C06", "differential runtime monitor: value.* Int helpers and compiled Elk p
 chk("C07", "differential runtime monitor: value.* operators on Int8..UInt64/UInt and Float/Float64/Float32 vs Go sized-integer / IEEE arithmetic; compiled Elk probes (literal, typed, method-call)",
     "Held on all Int8/UInt8 left operands x right pool (exhaustive in that bound), boundary + random values of wider types, every shift count -130..130 in every AnyInt member type, float pools and random bit patterns bit-for-bit; exploration.",
     "Trusted: Go arithmetic as reference; float ** not compared; integer ** only for non-negative exponents.")
+chk("C18", "runtime monitor of algebraic laws: relation matrices of ==, =~, hash, <, <=, >, >=, <=> computed by the real VM over a boundary value pool; offline checker for symmetry, reflexivity, hash law, trichotomy, agreement and transitivity (all triples); exact-rational labelling of the root cause",
+    "Held (apart from listed known findings) on all ordered pairs and all triples of a pool of ~770 values of every numeric kind around 2^24/2^53/2^63/2^64/10^22 plus strings, chars, symbols, collections, ranges, pairs, dates; exploration.",
+    "Trusted: math/big exact values used only to name the root cause of a law violation; collections nested one level only.")
